@@ -233,7 +233,8 @@ func allEdits(m map[string]any, r *rand.Rand, cap int) []editCase {
 				set(append(v[:len(v)-1], last))
 			}
 		case string:
-			alts := []string{v + "x"}
+			// a longer value, a fraction added (times), a trailing zero (amounts keep their precision)
+			alts := []string{v + "x", v + ".5", v + "0"}
 			if len(v) > 0 {
 				// change one character: digits to another digit, letters to another letter
 				b := []byte(v)
